@@ -182,7 +182,7 @@ class Axis(GetSetDelAttrMixin, AbstractAxis):
         >>> a.values
         array(['a', 2.0, 3.0], dtype=object)
         """
-        self._values = _maybe_cast_type(self._values, value)
+        self._values = _maybe_cast_type(self.values, value) # self.values: computed on demand for a MultiAxis
 
         # now can proceed to asignment
         self._values[item] = value
@@ -206,7 +206,7 @@ class Axis(GetSetDelAttrMixin, AbstractAxis):
         -------
         subaxis : Axis instance
         """
-        values = self._values.take(indices, mode=mode)
+        values = self.values.take(indices, mode=mode)
         newaxis = Axis(values, self.name, tol=self.tol)
         newaxis.attrs.update(self.attrs)
         return newaxis
@@ -425,8 +425,9 @@ class MultiAxis(Axis):
         self.axes = Axes(axes)
         self._name = ",".join([ax.name for ax in self.axes])
         self._values = None  # values not computed unless needed
-        self._size = None  
+        self._size = None
         self._attrs = dict()
+        self._monotonic = None # read by the methods inherited from Axis
 
     @property
     def values(self):
